@@ -31,6 +31,7 @@ UNIT_HARNESS = {
     # floating-point blocks: differential chunk-independence (roomy run vs adversarial drip-feed run), tags one-to-one
     'dsp': ('dsp_harness.rs', 'zc,zcclk,symsync,ssclk,fftfilt,fftfiltc,firf,hilbert,iir1,slicer,qdemod'),
     'zc': ('dsp_harness.rs', 'zc,zcclk'),
+    'symsync': ('dsp_harness.rs', 'symsync,ssclk'),
     'fftfilter': ('dsp_harness.rs', 'fftfilt,fftfiltc'),
     'hilbert': ('dsp_harness.rs', 'hilbert'),
     # byte-oriented / file / socket blocks
